@@ -2353,6 +2353,14 @@ class RedunBackendDb(RedunBackend):
                 call_nodes = call_nodes.join(Tag, Tag.entity_id == CallNode.call_hash).filter(
                     Tag.key == CONTEXT_KEY, Tag.value == sa_cast(context_hash, JSON)
                 )
+            else:
+                # A call with an empty context must not reuse a result computed under a
+                # (non-empty) context.
+                call_nodes = call_nodes.filter(
+                    ~sa.exists().where(
+                        Tag.entity_id == CallNode.call_hash, Tag.key == CONTEXT_KEY
+                    )
+                )
 
             call_node = call_nodes.order_by(Job.start_time.desc()).first()
             if call_node:
@@ -2492,6 +2500,12 @@ class RedunBackendDb(RedunBackend):
         if context_hash:
             call_nodes = call_nodes.join(Tag, Tag.entity_id == CallNode.call_hash).filter(
                 Tag.key == CONTEXT_KEY, Tag.value == sa_cast(context_hash, JSON)
+            )
+        else:
+            # A call with an empty context must not reuse a result computed under a
+            # (non-empty) context.
+            call_nodes = call_nodes.filter(
+                ~sa.exists().where(Tag.entity_id == CallNode.call_hash, Tag.key == CONTEXT_KEY)
             )
 
         # Intersect call_node task_hashes with current task hashes.
